@@ -31,10 +31,11 @@ const (
 	rWerr
 	rRF
 	rFlush
+	rRFerr
 	nROps
 )
 
-var rOpNames = [...]string{"WriteHeader(201)", "WriteHeader(404)", "Write(10)", "Write(short)", "Write(err)", "ReadFrom(7)", "Flush"}
+var rOpNames = [...]string{"WriteHeader(201)", "WriteHeader(404)", "Write(10)", "Write(short)", "Write(err)", "ReadFrom(7)", "Flush", "ReadFrom(3 bytes then error)"}
 
 // fake ResponseWriters of three capability sets; they record what was actually sent.
 type fakeRW struct {
@@ -90,6 +91,10 @@ func (f fakeFullRW) ReadFrom(r io.Reader) (int64, error) {
 	f.calls = append(f.calls, fmt.Sprintf("ReadFrom(%d)", len(b)))
 	return int64(len(b)), err
 }
+
+type failingReader struct{}
+
+func (failingReader) Read([]byte) (int, error) { return 0, errors.New("source failed") }
 
 type reqSpec struct {
 	id     int
@@ -159,7 +164,7 @@ var reMarker = regexp.MustCompile(`[rR](\d+)[xX]`)
 func c18(args []string) int {
 	f := mustFlags(args)
 	out := evid.New("C18")
-	rounds := f.N(180, 1500)
+	rounds := f.N(290, 2400)
 	maxLen := 4
 	if f.Thorough() {
 		maxLen = 5
@@ -193,7 +198,7 @@ func c18(args []string) int {
 		}
 		specs := make([]reqSpec, R)
 		for i := range specs {
-			specs[i] = reqSpec{id: round*1000 + i + 1, caps: (scriptIdx / nScripts) % 3, script: scriptOf(scriptIdx), k: 1 + (scriptIdx % 3)}
+			specs[i] = reqSpec{id: round*1000 + i + 1, caps: scriptIdx % 3, script: scriptOf(scriptIdx / 3), k: 1 + (scriptIdx % 2)}
 			scriptIdx++
 		}
 		if !f.Mine(round) {
@@ -277,6 +282,14 @@ func c18round(out *evid.Out, f *evid.Flags, round int, specs []reqSpec) {
 			case rFlush:
 				if fl, ok := w.(http.Flusher); ok {
 					fl.Flush()
+				}
+			case rRFerr:
+				// a source that fails half-way: 3 bytes are accepted, then the read error is returned
+				src := io.MultiReader(strings.NewReader("xyz"), failingReader{})
+				if rf, ok := w.(io.ReaderFrom); ok {
+					rf.ReadFrom(src)
+				} else {
+					w.Write([]byte("xyz"))
 				}
 			}
 		}
@@ -431,11 +444,13 @@ func c18round(out *evid.Out, f *evid.Flags, round int, specs []reqSpec) {
 				if wantStatus == 0 {
 					wantStatus = 404
 				}
-			case rW, rWshort, rWerr, rRF:
+			case rW, rWshort, rWerr, rRF, rRFerr:
 				if wantStatus == 0 {
 					wantStatus = 200
 				}
 				switch op {
+				case rRFerr:
+					wantSize += 3
 				case rW:
 					wantSize += 10
 				case rWshort:
